@@ -95,13 +95,17 @@ impl BumpAllocator {
         loop {
             let current = self.current.load(Ordering::Acquire);
 
-            // Calculate aligned offset
-            let aligned_offset = (current + align - 1) & !(align - 1);
-            let new_offset = aligned_offset + size;
-
-            if new_offset > self.capacity {
-                return Err(ZiporaError::out_of_memory(size));
-            }
+            // Align the address of the block, not just its offset: the buffer itself is only
+            // guaranteed to be 8-byte aligned.  All arithmetic is checked so that an oversized
+            // request is an error rather than an overflow.
+            let aligned_offset = match self.aligned_offset(current, align) {
+                Some(offset) => offset,
+                None => return Err(ZiporaError::out_of_memory(size)),
+            };
+            let new_offset = match aligned_offset.checked_add(size) {
+                Some(end) if end <= self.capacity => end,
+                _ => return Err(ZiporaError::out_of_memory(size)),
+            };
 
             // Try to atomically update the current offset
             match self.current.compare_exchange_weak(
@@ -161,9 +165,23 @@ impl BumpAllocator {
     /// Note: This is a best-effort check in a concurrent context. Another thread
     /// may allocate between this check and the actual allocation.
     pub fn can_allocate(&self, size: usize, align: usize) -> bool {
+        if !align.is_power_of_two() {
+            return false;
+        }
         let current = self.current.load(Ordering::Relaxed);
-        let aligned_offset = (current + align - 1) & !(align - 1);
-        aligned_offset + size <= self.capacity
+        match self.aligned_offset(current, align).and_then(|o| o.checked_add(size)) {
+            Some(end) => end <= self.capacity,
+            None => false,
+        }
+    }
+
+    /// Offset of the first address at or after `current` that is a multiple of `align`
+    /// (`align` must be a power of two); `None` on arithmetic overflow.
+    #[inline]
+    fn aligned_offset(&self, current: usize, align: usize) -> Option<usize> {
+        let base = self.buffer.as_ptr() as usize;
+        let addr = base.checked_add(current)?.checked_add(align - 1)? & !(align - 1);
+        Some(addr - base)
     }
 }
 
